@@ -481,11 +481,18 @@ def run(ctx):
         if dev and not mm:
             ctx.note("history with trigger for %s matched the strict spec (finding did not reproduce there): %s" % (dev, cid))
     ctx.extra["histories_with_known_trigger"] = ntrig
+    # ---- code -> spec: traces of the repository's own test-suite and of a randomised driver, validated by TLC
+    from harness import trace_validate
+    trace_validate.run(ctx, "C14")
     ctx.rule = ("every history of Stepper.tla of exactly MaxCalls API calls (compute(target) with any target order, "
                 "get, restart) x every injected transient failure point x every set of pre-control steps (chains); "
                 "non-trivial = contains at least one compute/restart")
     ctx.exhaustive = True
-    ctx.assumptions += ["content equality is decided against an uninterrupted run of a fresh object (tolerance 1e-9)",
+    ctx.assumptions += ["trace validation (TraceRun.tla): every public compute call made by the repository's own tests (quick: "
+                        "tests/coverage, thorough: also tests/physics) and by a randomised driver (decimal / off-grid / repeated / "
+                        "decreasing targets, transient failures) is one event; times in ticks of 1e-4, other times only get the "
+                        "target-free rules; a corrupted copy of the trace must be rejected (binding self-test)",
+                        "content equality is decided against an uninterrupted run of a fresh object (tolerance 1e-9)",
                         "failure = exception raised by the user's Hamiltonian, Lindblad rate, Lindblad operator (TEMPO; chosen by the "
                         "failing step) or field equation, fired once"]
 
@@ -493,6 +500,10 @@ def run(ctx):
 def replay(ctx, rep):
     core._init_worker()
     case = rep["case"]
+    if "trace_events" in case:
+        from harness import trace_validate
+        trace_validate.replay(ctx, case, "C14")
+        return
     mm = replay_case(case)
     ctx.case({"kind": case["kind"], "hist": case["hist"]})
     for x in mm:
